@@ -194,6 +194,14 @@ impl<'ast> Visit<'ast> for BodyIndex {
         self.nodes.push(json!({"k":"index","span":sp(e.span())}));
         visit::visit_expr_index(self, e);
     }
+    fn visit_expr_continue(&mut self, e: &'ast syn::ExprContinue) {
+        self.nodes.push(json!({"k":"continue","span":sp(e.span())}));
+        visit::visit_expr_continue(self, e);
+    }
+    fn visit_expr_break(&mut self, e: &'ast syn::ExprBreak) {
+        self.nodes.push(json!({"k":"break","span":sp(e.span())}));
+        visit::visit_expr_break(self, e);
+    }
     fn visit_expr_return(&mut self, e: &'ast syn::ExprReturn) {
         self.nodes.push(json!({"k":"return","span":sp(e.span())}));
         visit::visit_expr_return(self, e);
